@@ -142,6 +142,7 @@ func main() {
 	flag.Parse()
 	tier := drv.Tier(*tierF)
 	r := seq.New("C13", tier, "model_checking")
+	defer r.CrashGuard()
 	r.Rule = "one evaluation = one complete history of Sample calls (or of logger events / gate changes, or one interleaving of a concurrent BasicSampler scenario) executed on the real samplers in lock-step with the reference model; distinct = distinct (configuration, admit/reject vector); non-trivial = the vector contains both an admit and a reject"
 	r.Assumptions = []string{"clock readings >= 0 from {0,1,P-1,P,P+1,2P,2P+1} (non-monotonic allowed)", "counters below 2^32", "concurrent part: sequentially consistent interleavings of the atomic operations, 2-3 threads"}
 	maxLen := 6
